@@ -875,6 +875,33 @@ fn special_section(scratch: &Scratch, thorough: bool, rep: &mut Rep) {
             }
         } else { push_cap(&mut rep.corr_failures, J::obj(vec![("header", J::s(text)), ("implementation", J::s(format!("{:?} {:?}", out.error, out.panic)))])); }
     }
+    // (f) C++ `const` variables whose initialiser is not a constant expression (dynamic initialisation): C has no
+    //     compile-time value, so no `pub const` may be emitted (an `extern static` is the allowed rendering);
+    //     foldable neighbours keep their value
+    {
+        let text = "extern int c5_base;\nextern unsigned char c5_small;\nconst int c5_dyn1 = c5_base * 1000;\nconst int c5_dyn2 = (c5_base + 4) << 12;\nconst long c5_dyn3 = -c5_base - 32;\nconst unsigned c5_dyn4 = c5_small ? 255u : 30u;\nconst int c5_fixed = 7 * 6;\nconst long c5_neg = -(1L << 40);\n";
+        let out = generate_text(scratch, "sd.hpp", text, &["--no-layout-tests"], &["-x", "c++", "-std=c++14"], false);
+        rep.inc("bindgen_runs"); rep.inc("special_cases");
+        if let Some(b) = out.bindings {
+            let flat: String = b.split_whitespace().collect::<Vec<_>>().join(" ");
+            let val = |n: &str| -> Option<String> { for k in [format!("pub const {n}: "), format!("pub const {n} : ")] { if let Some(i) = flat.find(&k) { return flat[i + k.len()..].split(';').next().and_then(|d| d.split('=').nth(1)).map(|v| v.split_whitespace().collect::<String>()); } } None };
+            for n in ["c5_dyn1", "c5_dyn2", "c5_dyn3", "c5_dyn4"] {
+                rep.inc("oracle_compared");
+                match val(n) {
+                    None => rep.inc("oracle_agree"),
+                    Some(v) => push_cap(&mut rep.oracle_failures, J::obj(vec![("header", J::s(text)), ("name", J::s(n)), ("rust_value", J::s(v)), ("c_value", J::s("computed at program start from c5_base / c5_small: no compile-time value")), ("what", J::s("a constant is emitted for a dynamically initialised const variable"))])),
+                }
+            }
+            for (n, want) in [("c5_fixed", "42"), ("c5_neg", "-1099511627776")] {
+                rep.inc("oracle_compared");
+                match val(n) {
+                    Some(v) if v == want => rep.inc("oracle_agree"),
+                    None => rep.inc("oracle_agree"),
+                    Some(v) => push_cap(&mut rep.oracle_failures, J::obj(vec![("header", J::s(text)), ("name", J::s(n)), ("rust_value", J::s(v)), ("c_value", J::s(want))])),
+                }
+            }
+        } else { push_cap(&mut rep.corr_failures, J::obj(vec![("header", J::s(text)), ("implementation", J::s(format!("{:?} {:?}", out.error, out.panic)))])); }
+    }
     // (e) a function-like macro whose parameter is spelled like an object-like macro: `K` alone is not a C
     //     expression, no constant may be emitted for it
     {
